@@ -11,7 +11,8 @@ RULE = (
     "one run = one seeded swarm configuration (docs, shapes, op weights, value mix, fault arm) and an op list of "
     "write/add/delete row+column/add_table/add_sheet/rename/save/restart(+fixture loads, +write faults) executed against the "
     "real library and a list-of-lists model in lock-step; every table of every open document is compared cell by cell "
-    "(class, typed value, row/col) after EVERY op and again on the reopened file. Every third run index is a bounded-exhaustive stratum: the "
+    "(class, typed value, row/col) after EVERY op and again on the reopened file. Write faults are permanent (handle dead) or transient (handle stays usable); "
+    "after a failed save the history often goes on as a caller would: a small edit, a save to the SAME target left as the failed attempt left it, a reopen. Every third run index is a bounded-exhaustive stratum: the "
     "j-th of all 6,174 op sequences of length 1..3 over an 18-op alphabet on a tiny table (4 shape variants), then save+restart; a thorough batch covers them all. "
     "distinct = distinct event-log digest; "
     "non-trivial = the run completed at least one save->restart whose reopened grid was compared and contained >=1 structural edit or out-of-bounds write"
@@ -297,7 +298,19 @@ def emit_one(g: Gen, kind: str, fault_arm: bool) -> None:
         o = {"op": "save", "d": d, "slot": rng.choice(FILE_SLOTS + FILE_SLOTS + PKG_SLOTS)}
         if fault_arm and rng.random() < 0.45:
             o["fault"] = gen_fault(rng)
+        if rng.random() < 0.5:
+            o["wipe"] = False  # save over whatever a failed attempt left at the target instead of clearing it first
         g.emit(o)
+        if o.get("fault") and o["fault"]["kind"] == "write_error" and rng.random() < 0.6:
+            # the caller's natural reaction to a failed save: (edit a little,) save again to the same place, later reopen it
+            if rng.random() < 0.7:
+                tm2 = ms.docs[d % len(ms.docs)].model.sheets[s].tables[t]
+                if rng.random() < 0.5:
+                    g.emit({"op": "write", "d": d, "s": s, "t": t, "r": g.index(tm2.nrows), "c": g.index(tm2.ncols), "v": V.enc(rng.choice(["", "s", g.value()]))})
+                else:
+                    g.emit({"op": rng.choice(["add_row", "del_row", "add_col"]), "d": d, "s": s, "t": t, "n": 1})
+            g.emit({"op": "save", "d": d, "slot": o["slot"], "wipe": False})
+            g.emit({"op": "restart", "d": d, "slot": o["slot"], "replace": rng.random() < 0.5})
         if rng.random() < 0.35:
             # repeated save, same or other slot
             g.emit({"op": "save", "d": d, "slot": rng.choice(ALL_SLOTS)})
@@ -318,6 +331,8 @@ def gen_fault(rng) -> dict:
     f["frac"] = rng.random()
     if f["kind"] == "crash":
         f["lost"] = rng.choice([0, 0, rng.randint(1, 8192)])
+    elif rng.random() < 0.5:
+        f["transient"] = True
     return f
 
 
